@@ -413,16 +413,12 @@ func runC06(c *Checker) {
 			return false
 		}
 		again := pathExists(windowSel, windowSel, isSize)
+		isSizeCall := func(v ssa.Value) bool {
+			call, ok := v.(*ssa.Call)
+			return ok && call.Common().StaticCallee() == size
+		}
 		full := hasFact(windowSel.Block(), func(f Fact) bool {
-			bo, ok := f.Cond.(*ssa.BinOp)
-			if !ok {
-				return false
-			}
-			call, ok := bo.X.(*ssa.Call)
-			if !ok || call.Common().StaticCallee() != size || !isLoadOfField(bo.Y, fN) {
-				return false
-			}
-			return (bo.Op == token.LSS && !f.Val) || (bo.Op == token.GEQ && f.Val)
+			return factRel(f, isSizeCall, func(v ssa.Value) bool { return isLoadOfField(v, fN) }) == ">="
 		})
 		c.decide(!again && full, "NACKWIRE", "window-full|level-triggered", instrPos(windowSel), "the wait is entered only under size() >= n and size() is re-tested before every further wait",
 			"the window-full wait is edge-triggered: a dropped signal blocks the sender although the window has room")
